@@ -344,7 +344,7 @@ func Run(a Matrix, args ...interface{}) (Matrix, Matrix, error) {
     return nil, nil, fmt.Errorf("`a' must be a square matrix")
   }
   inSitu    := &InSitu{}
-  epsilon   := 1e-18
+  epsilon   := 2.22e-16
   computeU  := false
   symmetric := false
 
